@@ -83,21 +83,25 @@ def gen_point(rng, depth, allow_float, named, counter, bias=False):
             'sorted': srt, 'name': name, 'literal': lit}
 
 
-def build_space(desc):
+def build_space(desc, located=False, loc=None):
+    """`located`: every decision point gets a location of its own (as specs derived
+    from hyper values have), so that decision ids are unique."""
+    kw = {'location': pg.KeyPath.parse(loc)} if located and loc else {}
     if desc['kind'] == 'space':
-        return pg.geno.space([build_space(e) for e in desc['elements']])
+        return pg.geno.space([build_space(e, located, f'e{i}')
+                              for i, e in enumerate(desc['elements'])])
     if desc['kind'] == 'float':
-        return pg.geno.floatv(desc['min'], desc['max'], name=desc.get('name'))
+        return pg.geno.floatv(desc['min'], desc['max'], name=desc.get('name'), **kw)
     if desc['kind'] == 'choices':
         return pg.geno.manyof(
-            desc['k'], [build_space(c) for c in desc['cands']],
+            desc['k'], [build_space(c, located) for c in desc['cands']],
             distinct=desc['distinct'], sorted=desc['sorted'],
-            literal_values=desc.get('literal'), name=desc.get('name'))
+            literal_values=desc.get('literal'), name=desc.get('name'), **kw)
     raise ValueError(desc)
 
 
-def build_root_space(desc):
-    spec = build_space(desc)
+def build_root_space(desc, located=False):
+    spec = build_space(desc, located)
     if not isinstance(spec, pg.geno.Space):
         spec = pg.geno.space([spec])
     return spec
